@@ -573,7 +573,10 @@ pub(super) fn translate_cid(cid: rq::CId, ctx: &mut Context) -> Result<ExprOrSou
             ColumnDecl::RelationColumn(riid, _, col) => {
                 let column = match col.clone() {
                     rq::RelationColumn::Wildcard => translate_star(ctx, None)?,
-                    rq::RelationColumn::Single(name) => name.unwrap(),
+                    rq::RelationColumn::Single(name) => name.ok_or_else(|| {
+                        Error::new_simple("cannot refer to an unnamed column of a relation")
+                            .push_hint("give the column a name where the relation is defined")
+                    })?,
                 };
                 let t = &ctx.anchor.relation_instances[riid];
 
